@@ -60,6 +60,11 @@ REACH = {
     "RelativeSequence.get_sequence_duration_relation": "the duration sum",
     "AbsoluteSequence.get_message_pairings": "the pairing pass",
     "AbsoluteSequence.get_message_times_of_type": "the collection pass",
+    "AbsoluteSequence.quantise_note_lengths": "the per-note fitting pass",
+    "AbsoluteSequence.cutoff": "the per-note length test",
+    "AbsoluteSequence.merge": "the merging of every input",
+    "RelativeSequence.split": "the splitting pass",
+    "RelativeSequence.set_channel": "the channel assignment",
 }
 
 
@@ -73,8 +78,10 @@ def reach_rule(ctx: Ctx, functions) -> None:
             continue
         loops = [n for n in fi.node.body if isinstance(n, (ast.For, ast.While))
                  or (isinstance(n, ast.Assign) and isinstance(n.value, ast.ListComp))]
-        main = next((n for n in loops if "_messages" in src(n.iter if isinstance(n, ast.For) else n) or isinstance(n, ast.For) and src(n.iter) in fi.params), None)
+        main = next((n for n in loops if "_messages" in src(n.iter if isinstance(n, ast.For) else n) or isinstance(n, ast.For) and src(n.iter) in fi.params), None) \
+            or (loops[0] if loops else None)
         if main is None:
+            ctx.undetermined("REACH", f"{q}: {what}", "no top-level pass found: not judged")
             continue
         ex = [x for x in early_exits_before(fi.node, main) if isinstance(x, ast.Return)]
         ctx.check(not ex, "REACH", f"{q}: {what} is reached on every call", function=q,
